@@ -226,14 +226,16 @@ EvalOf(o, outlived) ==
 \* lock-free evaluation of the next object; publishes the pricing of an object that was not executable.
 \* pr: the object's priority after the evaluation (a fact of the implementation when it is refreshed).
 \* the priority an object has after wash evaluated it.  Executables are published in non-increasing priority order, so a
-\* priced object's priority has to be the one that holds for the block the wash works towards: PrioOf(tx, w.hd) - computed
-\* afresh when the pricing is published now, brought up to date otherwise (the base fee of that block may differ from the
-\* one the object was priced with, proved work may have expired).  Before GALACTICA nothing is refreshed (no base fee).
-\* [The pinned code refreshes only when the head's OWN base fee differs from its parent's - one block after the base fee
-\*  that pricing uses has moved, and never for expired work alone: hd.refresh / w.chg record that rule's inputs; see C18.py.]
+\* priced object's priority has to follow the block the wash works towards: it is computed afresh when the pricing is
+\* published now, and brought up to date - PrioOf(tx, w.hd): the next block's base fee, proved work only while it counts -
+\* by every wash that runs because the head changed (w.chg), once a base fee applies.  A wash on an unchanged head keeps
+\* what the object has (txpool.TestWashPriorityGasPriceRecomputation requires that).
+\* [Residual, known finding order:stale-priority:add-raced-head-change: an Add that priced under head b0 and inserts after
+\*  the head moved to b1 and after b1's wash took its snapshot keeps b0's priority until the next head change.  The model
+\*  has it too (AddLocked takes the priority of the head the prefix evaluated against); the driver reports it when it sees it.]
 EvalPrio(o) ==
   LET ob == objs[o] tx == txs[ob.h] IN
-  IF (~ob.flag /\ EvalOf(o, FALSE).r = "exec") \/ (ob.priced /\ w.hd.gala) THEN PrioOf(tx, w.hd) ELSE ob.prio
+  IF (~ob.flag /\ EvalOf(o, FALSE).r = "exec") \/ (ob.priced /\ w.chg /\ w.hd.gala) THEN PrioOf(tx, w.hd) ELSE ob.prio
 
 WashEval(outlived, pr) ==
   /\ w.pc = "eval" /\ w.i <= Len(w.snap)
